@@ -169,7 +169,7 @@ pub fn run_mtb(op: &str, a: &[Arg], st: &mut Stats) -> Option<Out> {
                 Err(e) => Out::ok(format!("child-error:{}", e)).with_oracle(false, "could not run the child process"),
             }
         }
-        _ => return None,
+        _ => return super::c04bulk::run_mtb_more(op, a, st), // bulk / environment ops (c04bulk.rs)
     })
 }
 
